@@ -655,6 +655,38 @@ def gen_chunked_put(rng):
     return out
 
 
+def gen_round5(rng):
+    """responses written in pieces with no framing header (write(part), writeFile() by the handler); Content-Type / Date set by
+    the handler on a file body; put(File) of a missing file on a connection that is to be closed / kept"""
+    out = []
+    m = rng.choice([0, 1, 11, 700, 16000, 16001, 40000, 128001])
+    code = rng.choice([200, 201, 404])
+    sizes = rng.choice(["6", "1", "3,5,1", "16000", "128000", "200000", str(rng.randrange(1, 300))])
+    out.append("xchg " + req(b"GET", b"/w", "SF", rheaders(rng, 1), "n") + " " + plan(code, rheaders(rng, 2), "w", gspec(rng, m) if m else "-", sizes))
+    out.append("xchg " + req(b"GET", b"/wf", "SF", [], "n") + " " + plan(code, rheaders(rng, 1), "W", gspec(rng, m) if m else "-"))
+    h1 = b"GET /a HTTP/1.1\r\nHost: example.test\r\n\r\n"
+    h2 = b"GET /b HTTP/1.1\r\nHost: example.test\r\n\r\n"
+    k = min(m, 3000)
+    out.append("raw %s 2 %s - cl - %s %s - cl - %s" % (rng.choice("sp"), hexs(h1), plan(200, rheaders(rng, 1), "w", gspec(rng, k) if k else "-", sizes),
+                                                     hexs(h2), plan(200, [], "t", gspec(rng, 4, 2))))
+    out.append("raw s 2 %s - cl - %s %s - cl - %s" % (hexs(h1), plan(200, [], "W", gspec(rng, k) if k else "-"), hexs(h2), plan(200, [], "b", gspec(rng, 3))))
+    # the handler's own Content-Type and Date on a file body
+    own = rng.choice([[(b"Content-Type", b"application/x-custom"), (b"Date", b"mine-%d" % rng.randrange(100))],
+                      [(b"content-type", b"application/x-custom; q=1")], [(b"date", b"yesterday")]])
+    out.append("xchg " + req(b"GET", b"/file", "SF", rng.choice([[], [(b"Range", b"bytes=2-7")]]), "n") + " " +
+               plan(200, own + rheaders(rng, 1), "f", gspec(rng, 20), hexs(rng.choice(EXTS))))
+    # a missing file: 404, and the connection closed when the request asks for it
+    for first in (b"GET /m HTTP/1.1\r\nHost: example.test\r\nConnection: close\r\n\r\n", b"GET /m HTTP/1.0\r\nHost: example.test\r\n\r\n",
+                  b"GET /m HTTP/1.1\r\nHost: example.test\r\n\r\n"):
+        out.append("raw s 2 %s - cl - %s %s - cl - %s" % (hexs(first), plan(rng.choice([200, 405]), rheaders(rng, 1), "m"), hexs(h2), plan(200, [], "t", gspec(rng, 4, 2))))
+    out.append("xchg " + req(b"GET", b"/m", "SF", [], "n") + " " + plan(rng.choice([200, 405]), rheaders(rng, 1), "m"))
+    # a transfer coding that does not end in chunked: the request is refused (C09's 4dff910), nothing after it is served
+    te = rng.choice([b"gzip", b"identity", b"chunked, gzip", b"", b"chunked,"])
+    bad = b"POST /t HTTP/1.1\r\nHost: example.test\r\nTransfer-Encoding: " + te + b"\r\nContent-Length: 5\r\n\r\n"
+    out.append("raw s 2 %s x68656c6c6f cl - %s %s - cl - %s" % (hexs(bad), plan(200, [], "t", gspec(rng, 4, 2)), hexs(h2), plan(200, [], "t", gspec(rng, 4, 2))))
+    return out
+
+
 def gen_expect(rng):
     """Expect: 100-continue: the server's interim answer must not be taken for the response"""
     out = []
@@ -777,6 +809,7 @@ def gen(rng, tier):
         # one op per case: a failing op must not hide behind another one of its batch when the case is shrunk
         cases += [[l] for l in gen_upload_again(rng)]
         cases += [[l] for l in gen_chunked_put(rng)]
+        cases += [[l] for l in gen_round5(rng)]
     cases += gen_long_lines(rng)
     for _ in range(4 if quick else 40):
         cases.append(gen_upload(rng))
@@ -864,7 +897,7 @@ def distribution(cases):
                     nh = int(t[j][1:])
                     kind = t[j + 1 + 2 * nh]
                     key = {"n": "plan:none", "b": "plan:bytes/text", "t": "plan:bytes/text", "j": "plan:json", "f": "plan:file",
-                           "s": "plan:stream", "S": "plan:stream", "r": "plan:redirect", "R": "plan:redirect"}.get(kind)
+                           "s": "plan:stream", "S": "plan:stream", "w": "plan:stream", "W": "plan:stream", "m": "plan:file", "r": "plan:redirect", "R": "plan:redirect"}.get(kind)
                     if key:
                         branch[key] += 1
             if t[0] in ("xchg", "cwire", "big"):
@@ -934,7 +967,9 @@ LEVEL_TEXT = ("Proved in Lean 4 about the executable model AslModel.HttpFrame (t
               "dictionary; continue_skipped — a response after the interim 100 Continue is read as if alone; empty_header_kept — a header "
               "that travels with an empty value is stored (present, empty) by the reader; chunked_request_roundtrip — a client asked "
               "to send chunked sends no length, chunks of the send block and the last chunk, and the server reads exactly its body; "
-              "chunked_put_roundtrip — a handler that asks for the chunked coding and put()s its body: no Content-Length goes out, the "
+              "auto_stream_roundtrip — a handler that writes its response in pieces and names neither a length nor a coding: the "
+              "library announces Transfer-Encoding: chunked, sends the pieces as chunks and ends the stream, the client returns exactly "
+              "the parts; chunked_put_roundtrip — a handler that asks for the chunked coding and put()s its body: no Content-Length goes out, the "
               "body goes in chunks and the library ends it with the last chunk, the client returns exactly code, dictionary and body; "
               "suffix_range_spec — Range: bytes=-k is the last k bytes; redirect_target_rfc3986 / redirect_target_absolute — the URL "
               "the client goes to for a redirection is the Location itself when it has a scheme and else its resolution against the "
@@ -971,9 +1006,13 @@ LEVEL_NOTE = ("Trusted: Lean kernel; the regex translator of the two block-size 
               "model, serveStep): chunk-size lines of 9 digits are generated (framing flag q) and compared; Content-Length with a sign, "
               "other characters or more than 10 digits and chunk-size lines with a sign are not generated here (C09 does). Hypotheses of the theorems: as stated above; user headers name neither Content-Length nor "
               "Transfer-Encoding; sizes below 2^31 (int). Deviation of asl recorded, not a defect of this property as worded: truncated "
-              "requests are dropped. Known findings: range-end-zero, chunked-stream-not-terminated. Twenty defects of this property were "
-              "repaired (fixed: lines); fifteen of them were found by audits / defect hunts, not by this check, and the check was "
-              "extended until it catches each on the pre-fix tree with a concrete replay (fourth hunt: a multipart upload sent a "
+              "requests are dropped. Known findings: range-end-zero, chunked-stream-not-terminated. Twenty-three defects of this property were "
+              "repaired (fixed: lines); eighteen of them were found by audits / defect hunts, not by this check, and the check was "
+              "extended until it catches each on the pre-fix tree with a concrete replay (fifth hunt: a response written in pieces "
+              "without a framing header was never announced as chunked — plan kinds w (write(part)) and W (the handler's own "
+              "writeFile) seen by the real client and byte for byte by raw peers; the server replaced a handler's Content-Type / Date "
+              "on a file body — such headers generated, Date canonicalised only when it is a time stamp; the 404 for a missing file "
+              "left a connection open that was to be closed — plan kind m followed by a second request; fourth hunt: a multipart upload sent a "
               "second time went out raw — uploads now go through redirections (kind R) and reused request objects, the envelope oracle "
               "U1 judges every send and the reference expects U1; Transfer-Encoding: chunked next to a Content-Length from put()/putFile() "
               "and a chunked whole message never ended — chunked uploads, handlers that set the coding and put() a body / a file, "
@@ -990,7 +1029,8 @@ LEVEL_NOTE = ("Trusted: Lean kernel; the regex translator of the two block-size 
               "of xchg now does); a header with an empty value was dropped by the reader (the model had the same "
               "setHeader and the generator produced no empty values). The model follows C09's repairs of the shared reader "
               "(obs-fold 350c8ee, Content-Length 00 d626376, Transfer-Encoding compared case-insensitively / last coding 7dcf721, "
-              "chunk-size line validation 4dbedbe, CRLF required after chunk data d0ace7d, no handler call once the reader gave the "
+              "chunk-size line validation 4dbedbe, CRLF required after chunk data d0ace7d, a request whose transfer coding does not end in chunked is refused 4dff910 (hypothesis "
+              "CodingOk of wire_request_exact: a coding, if named, ends in chunked), no handler call once the reader gave the "
               "connection up 5314fb5 — the last one was missing in the model until the q framing flag produced such input).")
 
 
@@ -1130,7 +1170,7 @@ def _ref_xchg(t):
             cs[cap(n)] = v
         if len(cs) != len(ph) or any(not v for v in cs.values()):
             return None
-        if code == 405 and pk != "s":          # a streaming handler has sent its headers before serve() could add Allow
+        if code == 405 and pk not in ("s", "w", "W"):   # a streaming handler has sent its headers before serve() could add Allow
             cs[b"Allow"] = METHODS_TEXT
         body = b""
         if pk == "n":
@@ -1138,15 +1178,22 @@ def _ref_xchg(t):
         elif pk in ("b", "t"):
             body = body_of(pargs[0])
             cs[b"Content-Length"] = b"%d" % len(body)
-        elif pk == "s":
+        elif pk in ("s", "w", "W"):
+            # w / W: written in pieces with no framing header: the library announces the chunked coding itself (75c75d0)
             body = body_of(pargs[0])
             cs[b"Transfer-Encoding"] = b"chunked"
+        elif pk == "m":
+            # put(File) of a missing file
+            code = 404
+            body = b"Not found"
+            cs[b"Content-Type"] = b"text/plain"
+            cs[b"Content-Length"] = b"9"
         elif pk == "f":
             content = body_of(pargs[0])
             ext = unhex(pargs[1])
             n = len(content)
-            cs[b"Date"] = b"D"
-            cs[b"Content-Type"] = MIME.get(ext, b"text/plain")
+            cs.setdefault(b"Date", b"D")              # what the handler set stays (71fbc0b)
+            cs.setdefault(b"Content-Type", MIME.get(ext, b"text/plain"))
             cs.setdefault(b"Cache-Control", b"max-age=60, public")
             rng_h = hs.get(b"Range")
             body = content
